@@ -86,6 +86,8 @@ func init() {
 			ruleReadinessByFirstNode(c, "C03.9")
 			ruleEmptyPoolForAsyncOnly(c, "C03.10")
 			ruleEmittedPoolIsMarkedScheduled(c, "C03.11")
+			ruleNoExitBypassesClose(c, "C03.12")
+			c12Reserved(c, "C03.13")
 			coRun(c, "C03.6", coTermination)
 		},
 		explanation: "GS: every producer kind closes exactly the channels the var block declares (one predicate, loops without early exit, hence one close per barrier); the emitted list is all eg.Go chains followed by the main thread, so no main-thread wait can precede a spawn; eg.Wait is appended before the normal return under the same predicate that declares the group; a chain is a single eg.Go(func() error {...; return nil}); a pool is a goroutine exactly when its first provider is Async, at every decision site; every built pool unblocks its dependants. " +
